@@ -49,7 +49,8 @@ SIG_SAME = 'C08 / CRC checked over re-encoding: value-preserving non-canonical i
 SIG_EID = "C08 / CRC checked over re-encoding: altered EID normalised back by the text conversion (dtn SSP '/' -> '?' or '#', urlsplit drops query/fragment)"
 # Genuine defects reported to the coordinator that are possibly not (yet) in known_findings.json: printed as
 # PENDING-FINDING without failing the run; once listed they are ordinary KNOWN-FINDINGs.
-PENDING_FINDINGS = [SIG_EID]
+PENDING_FINDINGS = []
+KNOWN_SIGS = (SIG_COLLIDE, SIG_SAME, SIG_EID)
 CORPUS = os.path.join(VERIF, 'harness', 'corpus', 'C08_reencoding_witnesses.json')
 
 CRC_W = {1: 2, 2: 4}
@@ -661,6 +662,28 @@ def replay(chk, path):
     sys.exit(0)
 
 
+def model_eval(chk, evals, shards=16):
+    ''' One sharded ``coq_eval`` over heterogeneous closed terms, balanced by weight.
+    :return: {key: parsed value} or None (error text in chk.model_error) '''
+    piles = [[] for _ in range(shards)]
+    loads = [0] * shards
+    for item in sorted(evals, key=lambda it: -it[0]):
+        pick = min(range(shards), key=lambda idx: (loads[idx], idx))
+        piles[pick].append(item)
+        loads[pick] += item[0]
+    size = max(len(pile) for pile in piles)
+    flat = []
+    for pile in piles:
+        flat.extend(pile + [(0, None, '0')] * (size - len(pile)))
+    try:
+        vals = chk.coq_eval('all', ['Lib.Crc', 'Model.Bundle', 'Model.BundleCrc', 'Gen.CrcTable'], [term for (_w, _k, term) in flat],
+                            '(fun x => x)', chunk=size)
+    except CoqError as err:
+        chk.model_error = str(err)[:400]
+        return None
+    return dict((key, val) for ((_w, key, _t), val) in zip(flat, vals) if key is not None)
+
+
 def tick(chk, what):
     if os.environ.get('C08_TIMING'):
         sys.stderr.write('[%7.1fs] %s\n' % (time.time() - chk.start, what))
@@ -713,21 +736,11 @@ def main():
             terms.append('(%d, %s)' % (ctype, coq_bytes(data)))
     enum_live = sorted(int(val) for val in AbstractBlock.CrcType)
     table_bad = []
+    evals = []          # (weight, key, closed Coq term): ONE sharded model evaluation for the whole check
     if tr_ok:
-        try:
-            got = chk.coq_eval('gen', ['Lib.Crc', 'Gen.CrcTable'], terms,
-                               '(fun c : N * list N => match CrcTable.gen_crc_field (fst c) (snd c) with Some v => [v] | None => [] end)', chunk=64)
-            got += chk.coq_eval('enum', ['Gen.CrcTable'], ['tt'], '(fun _ : unit => CrcTable.crc_type_values)')
-        except CoqError as err:
-            got = None
-            table_bad.append('model evaluation failed: %s' % str(err)[:300])
-        if got is not None:
-            for ((term, want), have) in zip(zip(terms, live), got[:-1]):
-                have_b = bytes(have[0]) if have else None
-                if have_b != want:
-                    table_bad.append('gen_crc_field %s = %s, live CRC_DEFN gives %s' % (term[:60], have_b and have_b.hex(), want and want.hex()))
-            if sorted(got[-1]) != enum_live:
-                table_bad.append('CrcType values %s vs translated %s' % (enum_live, got[-1]))
+        for (idx, term) in enumerate(terms):
+            evals.append((1, ('gen', idx), '((fun c : N * list N => match CrcTable.gen_crc_field (fst c) (snd c) with Some v => [v] | None => [] end) %s)' % term))
+        evals.append((1, ('enum', 0), 'CrcTable.crc_type_values'))
     else:
         table_bad.append('translator failed closed: %s' % tr_err)
     pos = 0
@@ -810,18 +823,35 @@ def main():
     # ---------------------------------------------------------------- model side (one sharded evaluation)
     model_bad = []
     tx_model_bad = []
-    try:
-        rx_terms = ['(%s, [%s])' % (coq_bytes(bytes.fromhex(task['orig'])),
-                                   '; '.join('(%d%%nat, %s)' % (off, coq_bytes(bytes.fromhex(xs))) for (off, xs, _t) in task['corr']))
-                    for task in tasks]
-        rx_model = chk.coq_eval('rx', ['Lib.Crc', 'Model.Bundle', 'Model.BundleCrc'], rx_terms, 'BundleCrc.run_rx', chunk=max(1, len(rx_terms) // 16 + 1))
-        tx_terms = [coq_bytes(raw) for (_s, raw, _v, _p) in tx_raws]
-        tx_model = chk.coq_eval('tx', ['Lib.Crc', 'Model.Bundle', 'Model.BundleCrc'], tx_terms, 'BundleCrc.run_tx', chunk=max(8, len(tx_terms) // 16 + 1))
-    except CoqError as err:
+    for (tidx, task) in enumerate(tasks):
+        evals.append((len(task['corr']), ('rx', tidx), '(BundleCrc.run_rx (%s, [%s]))' % (
+            coq_bytes(bytes.fromhex(task['orig'])),
+            '; '.join('(%d%%nat, %s)' % (off, coq_bytes(bytes.fromhex(xs))) for (off, xs, _t) in task['corr']))))
+    spec_sample = [idx for (idx, (_s, raw, _v, _p)) in enumerate(tx_raws) if len(raw) <= 110][:24 if quick else 120]
+    for (idx, (_s, raw, _v, _p)) in enumerate(tx_raws):
+        evals.append((max(1, len(raw) // 4), ('tx', idx), '(BundleCrc.run_tx %s)' % coq_bytes(raw)))
+    for idx in spec_sample:
+        evals.append((len(tx_raws[idx][1]) * 3, ('txspec', idx), '(BundleCrc.run_tx_spec %s)' % coq_bytes(tx_raws[idx][1])))
+    model = model_eval(chk, evals)
+    tick(chk, 'model side done')
+    if model is None:
+        model_bad.append('model evaluation failed: %s' % chk.model_error)
         rx_model = None
         tx_model = None
-        model_bad.append('model evaluation failed: %s' % str(err)[:400])
-    tick(chk, 'model side done')
+    else:
+        rx_model = [model[('rx', tidx)] for tidx in range(len(tasks))]
+        tx_model = [model[('tx', idx)] for idx in range(len(tx_raws))]
+        for idx in spec_sample:
+            if model[('txspec', idx)] != model[('tx', idx)]:
+                tx_model_bad.append('polynomial-specification CRC column differs from the executable one on %s' % tx_raws[idx][1].hex()[:80])
+        if tr_ok:
+            for (idx, (term, want)) in enumerate(zip(terms, live)):
+                have = model[('gen', idx)]
+                have_b = bytes(have[0]) if have else None
+                if have_b != want:
+                    table_bad.append('gen_crc_field %s = %s, live CRC_DEFN gives %s' % (term[:60], have_b and have_b.hex(), want and want.hex()))
+            if sorted(model[('enum', 0)]) != enum_live:
+                table_bad.append('CrcType values %s vs translated %s' % (enum_live, model[('enum', 0)]))
     pos_stats = dict(lax_drop=0, lax_accept=0, lax_none=0, strict_drop=0, strict_accept=0, canonical=0)
     if rx_model is not None:
         for (task, res_list, rows) in zip(tasks, results, rx_model):
@@ -840,6 +870,8 @@ def main():
                 bad_oct = apply_xor(orig, off, bytes.fromhex(xs_hex))
                 for (name, verdict) in (('lax', lax), ('strict', strict)):
                     if verdict == 1 and not res['dropped']:
+                        if name == 'strict' and res['sig'] in KNOWN_SIGS:
+                            continue        # the strict codec model has none of the lax readings: explained by the finding
                         model_bad.append('%s model drops, agent does not (%s): %s' % (name, res['effects'], where))
                     if verdict == 2 and res['dropped']:
                         lib_rejects = False
